@@ -707,6 +707,8 @@ pub fn c07_sched(ctx: &mut Ctx) {
         (CtrCase { threads: 2, k: 1, mem: 3.2e-8, records: vec![aca.clone(), cac.clone(), aca.clone()], delete: true }, Some(ctx.pick(2, 3)), "N2.limit4"),
         (CtrCase { threads: 3, k: 2, mem: 4e-9, records: vec![aca.clone(), aca.clone(), cac.clone()], delete: false }, Some(ctx.pick(2, 3)), "N3.limit0"),
         (CtrCase { threads: 3, k: 2, mem: 6.0, records: vec![ac.clone(), gt.clone(), ac.clone()], delete: true }, Some(ctx.pick(2, 3)), "N3.strands"),
+        // records without any k-mer between records with k-mers: a chunk may hold only such records
+        (CtrCase { threads: 2, k: 2, mem: 4e-9, records: vec![b"N".to_vec(), aca.clone(), b"A".to_vec(), ac.clone()], delete: true }, Some(ctx.pick(2, 3)), "N2.nokmer"),
     ];
     for (case, bound, label) in cases {
         ctr_explore(ctx, &case, bound, label);
